@@ -2462,6 +2462,10 @@ fn stun_request_authenticated(packet: &[u8], inner: &IceTransportInner) -> bool 
         && stun::verify_message_integrity(packet, local.password.as_bytes())
 }
 
+/// Peer reflexive candidates an agent learns from incoming Binding requests (RFC 8445
+/// section 7.3.1.3). A session sees a handful (one per NAT binding of the peer).
+const MAX_LEARNED_PEER_REFLEXIVE: usize = 64;
+
 async fn handle_stun_request(
     sender: &IceSocketWrapper,
     msg: &StunDecoded,
@@ -2511,6 +2515,7 @@ async fn handle_stun_request(
 
     // Check if we know this candidate
     let mut known = false;
+    let mut learned = 0usize;
     {
         let remotes = inner.remote_candidates.lock();
         for cand in remotes.iter() {
@@ -2518,7 +2523,22 @@ async fn handle_stun_request(
                 known = true;
                 break;
             }
+            if cand.typ == IceCandidateType::PeerReflexive {
+                learned += 1;
+            }
         }
+    }
+
+    // Outside WebRTC mode requests carry no credentials, so the source address of a
+    // datagram is all it takes to get here. Without a bound every spoofed source became a
+    // permanent remote candidate (scanned again for each later request) and a connectivity
+    // check towards it.
+    if !known && learned >= MAX_LEARNED_PEER_REFLEXIVE {
+        debug!(
+            "Ignoring STUN request from {}: {} peer reflexive candidates already learned",
+            addr, learned
+        );
+        return;
     }
 
     if !known {
